@@ -72,7 +72,7 @@ def handle : List String → String
       let pre := prehashMsiDir root
       let tar := msiToTar root
       let hyp := okAtB true root && root.meta.typ == typRoot
-      let safe := tarSafeB [] root.kids
+      let safe := tarRootOkB root.kids
       let specMain := Spec.MsiDigest.hashInput root
       let specPre := Spec.MsiDigest.prehashInput root
       let specEq := (main == .ok specMain) && (pre == .ok specPre)
